@@ -46,7 +46,7 @@ def plan(tier):
                 % len(SYMBOLS),
         'min_monitor': {'steps_checked': 2000, 'uses_refused': 200, 'uses_succeeded': 20,
                         'transitions_seen': 30, 'batch_items_checked': 300,
-                        'attribute_operations_at_states': 1000},
+                        'attribute_operations_at_states': 1000, 'use_revoke_use_batches': 100, 'states_reported_inside_batches': 50},
         'assumptions': ['engine behaviour is a function of (store, request, identity) - checked by C11 - '
                         'so closing the state graph covers all sequences of any depth over the alphabet',
                         'Revoke with CA_COMPROMISE may lead Active->Deactivated (inside the allowed relation)'],
@@ -381,6 +381,11 @@ def run_batch(ctx, case):
                                    state=rng.choice(('pre', 'active', 'active', 'active', 'deactivated', 'compromised')))
                 if o:
                     objs.append(o)
+            for i in range(2):
+                # two Active keys entitled to every use, so that uses that succeed are among the batch items
+                o = store.register(srv, 'sym', 'alice', rng, masks=masks_of('full'), names=['bfull%d' % i], state='active')
+                if o:
+                    objs.append(o)
             helper = store.register(srv, 'sym', 'alice', rng, names=['helper'], state='pre')
             dh = store.register(srv, 'sym', 'alice', rng, names=['derive-helper'], masks=[M.DERIVE_KEY], state='pre')
             if helper is None or dh is None or not objs:
@@ -393,11 +398,19 @@ def run_batch(ctx, case):
                 return {str(r[0]): S(r[2]) if r[2] is not None else None for r in dmp.get('crypto_objects', [])}, \
                     set(str(r[0]) for r in dmp.get('managed_objects', []))
             for step in range(14):
+                fresh = None
+                if rng.random() < 0.35:
+                    # a new Active key entitled to every use (the ones above are soon revoked for good)
+                    fresh = store.register(srv, 'sym', 'alice', rng, masks=masks_of('full'), names=['bfresh%d' % step], state='active')
+                    if fresh:
+                        objs.append(fresh)
                 prev, alive = states_now()
                 live = [o for o in objs if o.uid in alive]
                 if not live:
                     break
                 targets = rng.sample(live, min(len(live), rng.choice((1, 1, 2))))
+                if fresh and fresh not in targets:
+                    targets.append(fresh)
                 version = rng.choice(((1, 0), (1, 2), (1, 4), (2, 0)))
                 items = []
                 for _ in range(rng.randrange(2, 7)):
@@ -413,6 +426,27 @@ def run_batch(ctx, case):
                         except Exception:
                             continue
                     items.append((o, sym, op))
+                if fresh:
+                    # the same use before and after a Revoke of the object inside one request (whatever the first use
+                    # established about the object no longer holds for the second)
+                    o = fresh
+                    # (preferably a use the object is entitled to right now, so that the first one succeeds)
+                    fit = [u_ for u_ in ('encrypt', 'decrypt', 'sign', 'signature_verify', 'mac', 'wrap')
+                           if prev.get(o.uid) == S.ACTIVE and model.USE_REQUIREMENTS[u_][1] in o.masks and
+                           (model.USE_REQUIREMENTS[u_][0] is None or o.kind in model.USE_REQUIREMENTS[u_][0])]
+                    use = rng.choice(fit) if fit and rng.random() < 0.8 else rng.choice(USE_SYMBOLS)
+                    rv = rng.choice([s_ for s_ in SYMBOLS if s_.startswith('revoke:')])
+                    try:
+                        # (the State the server reports between the two is the evidence of where the object is then)
+                        trio = [(o, use, symbol_op(use, o.uid, helper.uid, version)),
+                                (o, rv, op_revoke(o.uid, RC[rv.split(':')[1]])),
+                                (o, 'get_state', op_get_attributes(o.uid, ['State'])),
+                                (o, use, symbol_op(use, o.uid, helper.uid, version))]
+                        at_ = rng.randrange(len(items) + 1)
+                        items[at_:at_] = trio
+                        ctx.count('use_revoke_use_batches')
+                    except Exception:
+                        pass
                 option = rng.choice((E.BatchErrorContinuationOption.CONTINUE, E.BatchErrorContinuationOption.CONTINUE,
                                      E.BatchErrorContinuationOption.STOP, None))
                 try:
@@ -460,6 +494,11 @@ def run_batch(ctx, case):
                     elif use:
                         ctx.count('uses_refused')
                     poss[o.uid] = possible_after(st, base, code, ok)
+                    if base == 'get_state' and ok:
+                        rep = [x[2] for _, x in T.walk(it['payload']) if x[0] == 0x42000B and x[1] == T.ENUM] if it['payload'] is not None else []
+                        if len(rep) == 1 and S(rep[0]) in poss[o.uid]:
+                            poss[o.uid] = {S(rep[0])}
+                            ctx.count('states_reported_inside_batches')
                 for o in targets:
                     if o.uid not in alive:
                         continue
